@@ -194,6 +194,7 @@ def run_groups(prop, entries, tier, repo):
     parsed = parse_terse(run["out"])
     results = []
     build_failed = ("error: could not compile" in run["out"]) or ("error[E" in run["out"] and not parsed)
+    failed_real = []
     for e in entries:
         h = e["harness"]
         base = dict(group=e.get("group", "kani"), harness=h, functions=e.get("functions", []), what=e.get("what", ""),
@@ -217,17 +218,29 @@ def run_groups(prop, entries, tier, repo):
                 base.update(status="undecided", reason="only tool-limit checks failed: %s" % "; ".join(c for c, _ in d["failed_checks"][:3]))
             else:
                 base.update(status="fail", failed_check="; ".join("%s @ %s" % (c, loc) for c, loc in real[:3]), output_tail=d["raw"])
-                cx, err = playback(repo, h)
-                base["counterexample"] = cx
-                if cx and e.get("replay"):
-                    nr = native_replay(repo, e["replay"], cx["bytes"])
-                    base["native_replay"] = nr
-                    if not nr.get("reproduced"):
-                        # CBMC float-model imprecision or harness-only artefact: do not raise an alarm
-                        base.update(status="undecided", reason="Kani counterexample did not reproduce natively on the real code: %s" % json.dumps(nr)[:400])
-                elif cx is None:
-                    base["native_replay"] = dict(reproduced=False, note="no concrete values from kani: %s" % (err or "")[:300])
+                failed_real.append((base, e))
         else:
             base.update(status="undecided", reason="kani gave no verdict: " + d["raw"][-300:])
         results.append(base)
+
+    # counterexamples: concrete playback (in parallel) + native replay on the real crate (serial: one cargo build)
+    def _pb(item):
+        base, e = item
+        return playback(repo, e["harness"])
+    import concurrent.futures as cf
+    if failed_real:
+        with cf.ThreadPoolExecutor(max_workers=4) as ex:
+            pbs = list(ex.map(_pb, failed_real[:6]))
+        for (base, e), (cx, err) in zip(failed_real[:6], pbs):
+            base["counterexample"] = cx
+            if cx and e.get("replay"):
+                nr = native_replay(repo, e["replay"], cx["bytes"])
+                base["native_replay"] = nr
+                if not nr.get("reproduced"):
+                    # CBMC float-model imprecision or harness-only artefact: do not raise an alarm
+                    base.update(status="undecided", reason="Kani counterexample did not reproduce natively on the real code: %s" % json.dumps(nr)[:400])
+            elif cx is None:
+                base["native_replay"] = dict(reproduced=False, note="no concrete values from kani: %s" % (err or "")[:300])
+        for base, e in failed_real[6:]:
+            base["native_replay"] = dict(reproduced=False, note="more than 6 failing harnesses: playback skipped for this one")
     return results
